@@ -7,10 +7,25 @@ to a field F = (class, name, type) that some added DEX defines:
   owner        dx.get_field_analysis(EncodedField of F) exists and lists (class of M, M, offset) under read for
                iget*/sget* and under write for iput*/sput*, and not under the other; it lists nothing else
   method       M.get_xref_read()/get_xref_write() lists (class of M, F, offset), and nothing else
-  union        the accesses found on *all* FieldAnalysis objects of dx.get_fields() are exactly the accesses to defined fields
-  once         every defined field occurs exactly once in dx.get_fields()
+  union        the accesses found on *all* FieldAnalysis objects of dx.get_fields() are exactly the accesses to defined
+               fields, reads under read and writes under write
+  once/fields  every defined field occurs exactly once in dx.get_fields() (and the multiset of (field, reads, writes) and
+               the per-class field lists are the expected ones)
 Shipped part: the same clauses over shipped DEX/APK files (access list read from the raw code units).
+
+Open finding field-owner (cannot be fixed without changing a pinned count in tests/test_analysis.py::testAPK): step 4 of
+Analysis._create_xref records a field access on a FieldAnalysis *of the accessing class* (a second FieldAnalysis for the
+field when that class is not the owner) and resolves the field only in the DEX of the accessing instruction (an access to
+a field defined in another DEX of the analysis is dropped everywhere). Every clause is evaluated under the statement and
+under that exact defect model:
+  owner        -> only accesses from the owner class itself          method / union -> only same-DEX accesses
+  once/fields  -> one FieldAnalysis for the owner (same-class accesses) plus one per other accessing class of the same DEX
+A clause that equals the defect model (and not the statement) goes to '<clause>:field-owner'; anything that equals
+neither is a violation (reported against whichever of the two it is closer to). So same-class accesses, the method-side
+(class, field, offset) listing, the read/write classification and the offsets stay exactly checked.
 """
+from collections import Counter
+
 from vf.gen import dalvik_spec as ds
 from vf.gen import xrefgen as X
 from vf.checks import _xref as A
@@ -24,7 +39,10 @@ RULE = ('generated: xrefgen model (2..5 classes over 1..4 DEX files, fields of 1
 ASSUMPTIONS = ['vf/gen/dexgen.py writes well-formed DEX files; vf/gen/asm.py + dalvik_spec.py give instruction sizes/offsets',
                'the target field of an instruction is the (class, name, type) triple of its field_id; a reference through a '
                'subclass to an inherited field is not "defined" and must not be attributed to any FieldAnalysis',
-               'shipped files: pool indices are resolved to names by androguard.core.dex (parser), not by analysis.py']
+               'shipped files: pool indices are resolved to names by androguard.core.dex (parser), not by analysis.py',
+               'open finding field-owner: clauses are accepted when they equal the exact defect model (see module docstring)']
+
+KNOWN = ':field-owner'
 
 
 def _where(exp, dexof, mk, fk):
@@ -35,14 +53,76 @@ def _where(exp, dexof, mk, fk):
     return 'other-class'
 
 
-def _worst(ws):
-    for w in ('other-dex', 'other-class', 'own-class'):
-        if w in ws:
-            return w
-    return 'unexpected'
+def accesses(exp):
+    """[(method key, offset, 'read'|'write', field key)] of the accesses to defined fields"""
+    df = exp['defined_fields']
+    out = []
+    for mk, sl in exp['sites'].items():
+        for (off, op, kind, fk) in sl:
+            if kind == 'fld' and fk in df:
+                out.append((mk, off, ds.field_access(op)[1], fk))
+    return out
 
 
-def check(ctx, exp, dx, vms, case, dexof=None):
+def views(exp, acc, dexof, defect):
+    """by-name expectation of every clause, under the statement (defect=False) or under the field-owner defect model."""
+    v = {k: set() for k in ('owner_read', 'owner_write', 'method_read', 'method_write', 'union_read', 'union_write')}
+    fas = {(fk, fk[0]): (set(), set()) for fk in exp['defined_fields']}     # (field, holder class) -> (reads, writes)
+    for (mk, off, rw, fk) in acc:
+        a, c = mk[0], fk[0]
+        if defect and dexof[a] != dexof[c]:
+            continue                                    # defect: field looked up in the accessing DEX only
+        e = (a, mk, off)
+        v['method_' + rw].add((mk, (a, fk, off)))
+        v['union_' + rw].add((fk, e))
+        if not defect or a == c:
+            v['owner_' + rw].add((fk, e))
+        holder = a if defect else c                     # defect: FieldAnalysis of the accessing class
+        fas.setdefault((fk, holder), (set(), set()))[0 if rw == 'read' else 1].add(e)
+    fields, cfields, once = Counter(), Counter(), Counter()
+    for (fk, holder), (r, w) in fas.items():
+        fields[(fk, frozenset(r), frozenset(w))] += 1
+        cfields[(holder, fk)] += 1
+        once[fk] += 1
+    v['fields'] = set(fields.items())
+    v['class_fields'] = set(cfields.items())
+    v['once'] = set(once.items())
+    return v
+
+
+_FK = {'owner': lambda e: e[0], 'union': lambda e: e[0], 'method': lambda e: e[1][1], 'fields': lambda e: e[0][0],
+       'once': lambda e: e[0], 'class_fields': lambda e: e[0][1]}
+
+
+def _clause(ctx, case, name, obs, e_c, e_d, other_fields):
+    """obs == statement -> ok; obs == defect model -> known bucket; else violation against the closer of the two."""
+    if obs == e_c:
+        return
+    fk_of = _FK[name.split('_')[0] if not name.startswith('class_') else 'class_fields']
+    if obs == e_d:
+        diff = (e_c - obs) | (obs - e_c)
+        shape_ok = all(fk_of(e) in other_fields for e in diff)
+        ctx.count('defect_model_hits:field-owner')
+        ctx.fail(name + KNOWN if shape_ok else name + ':defect-model-on-unaffected-field',
+                 dict(case, clause=name, missing=A.short(e_c - obs), extra=A.short(obs - e_c), defect_model_match=True,
+                      differences_only_on_fields_accessed_from_another_class=shape_ok,
+                      n_missing=len(e_c - obs), n_extra=len(obs - e_c)),
+                 '%s equals the field-owner defect model, not the statement: %d expected entries missing, %d unexpected; e.g. '
+                 'missing %r extra %r' % (name, len(e_c - obs), len(obs - e_c), A.short(e_c - obs, 2), A.short(obs - e_c, 2)))
+        return
+    dc = len(e_c - obs) + len(obs - e_c)
+    dd = len(e_d - obs) + len(obs - e_d)
+    base, tag = (e_d, ':vs-defect-model') if (dd < dc and e_d != e_c) else (e_c, '')
+    missing, extra = base - obs, obs - base
+    ctx.fail('%s:%s%s' % (name, 'both' if missing and extra else 'missing' if missing else 'extra', tag),
+             dict(case, clause=name, missing=A.short(missing), extra=A.short(extra), defect_model_match=False,
+                  compared_with='field-owner defect model' if tag else 'statement', n_missing=len(missing), n_extra=len(extra)),
+             '%s matches neither the statement nor the field-owner defect model; against the %s: %d entries missing, %d '
+             'unexpected; e.g. missing %r extra %r' % (name, 'defect model' if tag else 'statement', len(missing), len(extra),
+                                                       A.short(missing, 2), A.short(extra, 2)))
+
+
+def check(ctx, exp, dx, vms, case, dexof):
     try:
         snap = A.snapshot(dx, callgraph=False)
         ef_of = {}
@@ -65,22 +145,12 @@ def check(ctx, exp, dx, vms, case, dexof=None):
         ctx.fail('exception:' + e.where, case, e.tb)
         return
     df = exp['defined_fields']
-    # expected accesses to defined fields
-    exp_r, exp_w = {}, {}           # fk -> {(cls, mk, off)}
-    m_r, m_w = {}, {}               # mk -> {(cls, fk, off)}
-    where = {}
-    for mk, sl in exp['sites'].items():
-        for (off, op, kind, fk) in sl:
-            if kind != 'fld' or fk not in df:
-                continue
-            rw = ds.field_access(op)[1]
-            (exp_r if rw == 'read' else exp_w).setdefault(fk, set()).add((mk[0], mk, off))
-            (m_r if rw == 'read' else m_w).setdefault(mk, set()).add((mk[0], fk, off))
-            where[(fk, mk, off)] = _where(exp, dexof, mk, fk)
-
-    def cls_of(entries, fk):
-        return _worst({where.get((fk, e[1], e[2]), 'unexpected') for e in entries})
-    # owner clause
+    acc = accesses(exp)
+    other_fields = {fk for (mk, off, rw, fk) in acc if mk[0] != fk[0]}
+    Ec = views(exp, acc, dexof, False)
+    Ed = views(exp, acc, dexof, True)
+    # ---- observed views
+    obs = {k: set() for k in ('owner_read', 'owner_write')}
     for fk in sorted(df):
         o = owner.get(fk)
         if fk not in ef_of:
@@ -91,56 +161,27 @@ def check(ctx, exp, dx, vms, case, dexof=None):
             continue
         ctx.check(o[0] == fk, 'owner:wrong-field', lambda: dict(case, field=fk, observed=o[0]),
                   'get_field_analysis(%r) wraps %r' % (fk, o[0]))
-        for tag, want, got, other in (('read', exp_r.get(fk, set()), o[1], o[2]), ('write', exp_w.get(fk, set()), o[2], o[1])):
-            missing, extra = want - got, got - want
-            if missing:
-                wrong_side = missing & other
-                ctx.fail('owner:%s-missing:%s%s' % (tag, cls_of(missing, fk), ':listed-as-other-kind' if wrong_side else ''),
-                         dict(case, field=fk, clause='owner', kind=tag, missing=A.short(missing), observed=A.short(got)),
-                         'FieldAnalysis of %r lacks %s accesses %r' % (fk, tag, A.short(missing, 3)))
-            if extra:
-                ctx.fail('owner:%s-extra' % tag, dict(case, field=fk, clause='owner', kind=tag, extra=A.short(extra)),
-                         'FieldAnalysis of %r lists %s accesses that do not exist: %r' % (fk, tag, A.short(extra, 3)))
-        # legacy view without offsets
+        obs['owner_read'] |= {(fk, e) for e in o[1]}
+        obs['owner_write'] |= {(fk, e) for e in o[2]}
         ctx.check(o[3] == {(c, m) for (c, m, _) in o[1]} and o[4] == {(c, m) for (c, m, _) in o[2]}, 'owner:no-offset-view',
                   lambda: dict(case, field=fk), 'get_xref_read()/write() without offsets differ from the with_offset view')
-    # method clause
-    for tag, want_all, key in (('read', m_r, 'read'), ('write', m_w, 'write')):
-        obs = {(mk, e) for mk, ent in snap['m'].items() for e in ent[key]}
-        want = {(mk, e) for mk, s in want_all.items() for e in s}
-        missing, extra = want - obs, obs - want
-        if missing:
-            ws = _worst({where.get((e[1], mk, e[2]), '?') for (mk, e) in missing})
-            ctx.fail('method:%s-missing:%s' % (tag, ws),
-                     dict(case, clause='method', kind=tag, missing=A.short(missing)),
-                     'MethodAnalysis.get_xref_%s lacks %r' % (tag, A.short(missing, 3)))
-        if extra:
-            ctx.fail('method:%s-extra' % tag, dict(case, clause='method', kind=tag, extra=A.short(extra)),
-                     'MethodAnalysis.get_xref_%s lists accesses that do not exist or whose field is not defined: %r' % (tag, A.short(extra, 3)))
-    # union + once
-    uni_r, uni_w = set(), set()
-    count = {}
+    obs['method_read'] = {(mk, e) for mk, ent in snap['m'].items() for e in ent['read']}
+    obs['method_write'] = {(mk, e) for mk, ent in snap['m'].items() for e in ent['write']}
+    obs['union_read'] = {(fk, e) for (fk, rd, wr) in snap['fields'] for e in rd}
+    obs['union_write'] = {(fk, e) for (fk, rd, wr) in snap['fields'] for e in wr}
+    obs['fields'] = set(snap['fields'].items())
+    once = Counter()
     for (fk, rd, wr), n in snap['fields'].items():
-        count[fk] = count.get(fk, 0) + n
-        uni_r |= {(fk, e) for e in rd}
-        uni_w |= {(fk, e) for e in wr}
-    for tag, obs, want_d in (('read', uni_r, exp_r), ('write', uni_w, exp_w)):
-        want = {(fk, e) for fk, s in want_d.items() for e in s}
-        missing, extra = want - obs, obs - want
-        if missing:
-            ws = _worst({where.get((fk, e[1], e[2]), '?') for (fk, e) in missing})
-            ctx.fail('union:%s-missing:%s' % (tag, ws), dict(case, clause='union', kind=tag, missing=A.short(missing)),
-                     'no FieldAnalysis of dx.get_fields() lists %r' % (A.short(missing, 3),))
-        if extra:
-            ctx.fail('union:%s-extra' % tag, dict(case, clause='union', kind=tag, extra=A.short(extra)),
-                     'some FieldAnalysis lists accesses that do not exist: %r' % (A.short(extra, 3),))
-    dup = sorted(fk for fk in df if count.get(fk, 0) > 1)
-    lost = sorted(fk for fk in df if count.get(fk, 0) == 0)
-    ctx.check(not dup, 'once:duplicate', lambda: dict(case, clause='once', duplicates=dup[:8], n=len(dup)),
-              '%d defined field(s) have more than one FieldAnalysis in dx.get_fields(), e.g. %r' % (len(dup), dup[:3]))
-    ctx.check(not lost, 'once:missing', lambda: dict(case, clause='once', missing=lost[:8], n=len(lost)),
-              '%d defined field(s) have no FieldAnalysis in dx.get_fields(), e.g. %r' % (len(lost), lost[:3]))
-    return where
+        once[fk] += n
+    obs['once'] = set(once.items())
+    cf = Counter()
+    for cn, ent in snap['c'].items():
+        for fk, n in ent['fields'].items():
+            cf[(cn, fk)] += n
+    obs['class_fields'] = set(cf.items())
+    for name in ('owner_read', 'owner_write', 'method_read', 'method_write', 'union_read', 'union_write', 'once', 'fields',
+                 'class_fields'):
+        _clause(ctx, case, name, obs[name], Ec[name], Ed[name], other_fields)
 
 
 def _labels(model, exp):
@@ -229,7 +270,7 @@ def shards(tier, seed):
 def run_shard(ctx, shard):
     if shard[0] == 'gen':
         n = 800 if ctx.tier == 'quick' else 2500
-        A.collect(ctx, X.models(profile='fields'), run_model, n, salt=shard[1])
+        A.collect(ctx, X.models(profile='fields'), run_model, n, salt=shard[1], skip=lambda b: b.endswith(KNOWN))
     else:
         for name in shard[1]:
             run_file(ctx, name)
@@ -240,3 +281,26 @@ def replay(ctx, case):
         run_model(ctx, case['model'], record=False)
     else:
         run_file(ctx, case['name'])
+
+
+def _m_field_owner(bucket, case, msg):
+    """Only the failure shape of the field-owner defect: the clause equals the exact defect model (accesses recorded on a
+    FieldAnalysis of the accessing class; field resolved in the accessing DEX only), every difference from the statement
+    concerns a field that is accessed from a class other than its owner, and (owner/union/method clauses) every missing
+    entry is such an access."""
+    if not bucket.endswith(KNOWN) or not case.get('defect_model_match'):
+        return False
+    if not case.get('differences_only_on_fields_accessed_from_another_class'):
+        return False
+    clause = case.get('clause', '')
+    for e in case.get('missing') or []:
+        if clause.startswith(('owner_', 'union_')):
+            if e[0][0] == e[1][0]:          # (field key, (accessing class, method, offset))
+                return False
+        elif clause.startswith('method_'):
+            if e[0][0] == e[1][1][0]:       # (method key, (class, field key, offset))
+                return False
+    return True
+
+
+MATCHERS = {'field_owner': _m_field_owner}
